@@ -6,12 +6,17 @@ from .. import feccat
 from . import c01, c03
 
 ID = "C02"
-KINDS = {"U": ["weight_triangle", "nearest_decoder_corrects", "ml_is_nearest", "ml_corrects", "ml_corrects_large", "syndrome_decoder_corrects", "syndrome_table_entry", "hamming_inverse_corrects"],
+KINDS = {"U": ["weight_triangle", "nearest_decoder_corrects", "ml_is_nearest", "ml_corrects", "ml_corrects_large", "syndrome_decoder_corrects", "syndrome_table_entry", "hamming_inverse_corrects",
+               "bm_reduction (BMProofs.correct_add_of_zero, syndAt_codeword)", "bm_corrects_small"],
          "R": ["syndrome_decoder_instances"],
-         "K": ["C03.instances_ok (distances, shared catalogue)", "C01.instances_ok (null space, right inverse)"]}
-PARTIAL = ["Berlekamp-Massey (BCH) and the Reed majority decoder (RM): no Lean model yet - the check runs the implementation on every "
-           "error pattern of weight <= t for the small codes and random patterns above and compares with the transmitted message "
-           "(an exhaustive TEST, not a theorem)",
+         "K": ["C03.instances_ok (distances, shared catalogue)", "C01.instances_ok (null space, right inverse)", "C03.bch_ok", "bm_light_small"]}
+PARTIAL = ["Berlekamp-Massey: modelled (Kaira/BM.lean: syndromes, tabular BM, Chien-style search) and tied line by line (decoded messages, internals); "
+           "proved: the correction depends on the syndromes only, syndromes are additive and vanish on code words of a certified BCH instance, hence "
+           "decoding (code word + e) = decoding e on the zero code word for EVERY instance (bm_reduction); full correctness within capability is a "
+           "theorem where the kernel can run the decoder on every light pattern (n <= 15, t <= 1: bm_corrects_small); for the larger instances the light "
+           "patterns on the zero code word are run through the compiled model and the implementation by the check (exhaustive where <= 700 / 20000 patterns) - "
+           "a test of the model lifted by the theorem, not a proof that the BM recursion finds the locator",
+           "Reed majority decoder (RM): no Lean model - exhaustive TEST of the implementation within capability",
            "syndrome-table decoder, Hamming inverse and RM nearest-codeword inverse: tied to executable models by the correspondence; "
            "'nearest' is proved for the ML model only"]
 RULE = ("decode lines: codewords x error patterns of weight <= t (exhaustive when the product <= 2*10^4, sampled otherwise) and arbitrary words "
@@ -176,6 +181,40 @@ def corr(ctx):
             if not ctx.thorough and len(cs) > 800:
                 cs = ctx.rng.sample(cs, 800)
             res = _dec(fn, [w for w, _, _ in cs])
+            if kind == "bm":
+                # the Lean model of the decoder (Kaira/BM.lean): decoded messages line by line, the internals (syndromes, error locator,
+                # error positions) on a sample, and EVERY error pattern of weight <= t on the zero code word (BMProofs.bm_reduction lifts
+                # those to every code word)
+                fld = enc._field
+                PP, mm = int(fld.modulus.value), int(c.params["mu"])
+                for (w, m_, wt), o in list(zip(cs, res))[: (400 if ctx.thorough else 120)]:
+                    ops.append(Op("bmdec %s %d %d %d %s" % (name, PP, mm, tt, bits(w)), o, nontrivial=bool(wt),
+                                  info={"site": site, "config": dict(cfg, sent=bits(m_), weight=wt)}, prop_ok=(o == bits(m_))))
+                light = [p_ for wgt in range(0, tt + 1) for p_ in itertools.combinations(range(n), wgt)]
+                if len(light) > (20000 if ctx.thorough else 700):
+                    light = [()] + ctx.rng.sample(light[1:], (20000 if ctx.thorough else 700) - 1)
+                LW = [[1 if j in set(p_) else 0 for j in range(n)] for p_ in light]
+                for w, o, p_ in zip(LW, _dec(fn, LW), light):
+                    ops.append(Op("bmdec %s %d %d %d %s" % (name, PP, mm, tt, bits(w)), o, nontrivial=bool(p_),
+                                  info={"site": site, "config": dict(cfg, sent=bits([0] * k), weight=len(p_), zero_codeword=True)}, prop_ok=(o == bits([0] * k))))
+                ctx.count("bm_light_patterns_on_zero_codeword", len(LW))
+                # internals, also beyond the capability (arbitrary words): model and implementation must agree step by step
+                rng = ctx.rng
+                sample = [w for w, _, _ in cs[:6]] + [[rng.getrandbits(1) for _ in range(n)] for _ in range(6)] if tt >= 1 else []
+                for w in sample:
+                    try:
+                        rf = [fld(int(b)) for b in w]
+                        S = enc.calculate_syndrome_polynomial(rf)
+                        if all(x == fld.zero for x in S):
+                            impl = "S %s clean" % ",".join(str(int(x.value)) for x in S)
+                        else:
+                            sg = fn.berlekamp_massey_algorithm(S)
+                            pos = fn._find_error_locations(sg)
+                            impl = "S %s L %s E %s" % (",".join(str(int(x.value)) for x in S), ",".join(str(int(x.value)) for x in sg), ",".join(map(str, pos)) or "-")
+                    except Exception as e_:
+                        impl = "other:%s" % type(e_).__name__
+                    ops.append(Op("bmint %d %d %d %d %s" % (PP, mm, tt, n, bits(w)), impl, nontrivial=True, info={"site": site + ".internals", "config": dict(cfg)}))
+                ctx.count("bm_internal_lines", len(sample))
             bad = [(w, m, wt, o) for (w, m, wt), o in zip(cs, res) if o != bits(m)]
             ctx.count("test_" + kind, len(cs))
             if bad:
